@@ -1575,4 +1575,358 @@ Proof.
   - intros id v H. destruct v; [|lia]. pose proof (T2 _ _ H) as H'. unfold vz in Hz. congruence.
   - intros id v H. destruct v; [|lia]. pose proof (T3 _ _ H) as H'. unfold vz in Hz. congruence.
 Qed.
+
+(* ================================================================ Part E *)
+(* no stale argument entry: a variable typed as the variable of argument id IS the variable recorded
+   for id (so assignment_to_extension can only report live arguments, each once) *)
+Definition conv (e : denc) : Prop :=
+  forall v id, nth_error (e_vars e) v = Some (VArg id) -> tbl_var (e_a2v e) id = Some v.
+
+Definition allocated' (vars : list vtype) (t : vtype) (r : list vtype * nat) : Prop :=
+  allocated vars t r /\ (forall i, length vars <= i -> i < snd r -> nth_error (fst r) i = Some VIgnored).
+
+Lemma new_solver_var_spec' vars t : okm (new_solver_var vars t) (allocated' vars t).
+Proof.
+  unfold new_solver_var. apply okm_bind_any. intros nv. apply okm_ret.
+  destruct (alloc_var vars nv t) as [vars' v] eqn:E.
+  destruct (alloc_var_spec _ _ _ _ _ E) as (_ & H2 & H3 & H4 & H5 & H6).
+  unfold allocated', allocated. cbn [fst snd]. auto.
+Qed.
+
+(* what a table looks like after an allocation: old part, Ignored padding, the new entry *)
+Lemma allocated_entries vars t r i x :
+  allocated' vars t r -> nth_error (fst r) i = Some x ->
+  (i < length vars /\ nth_error vars i = Some x) \/ x = VIgnored \/ (i = snd r /\ x = t).
+Proof.
+  intros [(A1 & A2 & A3 & A4) A5] H.
+  destruct (Nat.lt_ge_cases i (length vars)) as [Hlt|Hge].
+  - left. split; [assumption|]. rewrite <- A3; assumption.
+  - destruct (Nat.lt_trichotomy i (snd r)) as [Hl|[->|Hg]].
+    + right. left. rewrite A5 in H by assumption. congruence.
+    + right. right. split; [reflexivity|]. congruence.
+    + pose proof (nth_error_lt _ _ _ H). lia.
+Qed.
+
+Lemma conv_set_ign e i a2s' assum' :
+  conv e -> conv (enc_with e (e_a2v e) a2s' (set_nth i VIgnored (e_vars e)) assum').
+Proof.
+  intros H v id Hv. unfold enc_with in *. cbn [e_vars e_a2v] in *.
+  destruct (Nat.eq_dec i v) as [->|Hne].
+  - pose proof (nth_error_lt _ _ _ Hv) as Hl. rewrite length_set_nth in Hl.
+    rewrite nth_error_set_nth_eq in Hv by assumption. discriminate.
+  - rewrite nth_error_set_nth_neq in Hv by assumption. apply H. exact Hv.
+Qed.
+
+Lemma update_attacks_to_conv af e id : conv e -> okm (update_attacks_to L af e id) conv.
+Proof.
+  intros H. unfold update_attacks_to. destruct (negb (e_upd e)); [apply okm_ret; exact H|].
+  destruct (nth_error (e_a2s e) id) as [os|]; [|apply okm_panic].
+  apply (okm_bind _ _ conv).
+  { destruct os as [s|]; [|apply okm_ret; exact H].
+    eapply okm_bind; [apply remove_selector_spec|]. intros e' (p & _ & ->). apply okm_ret.
+    intros v id' Hv. unfold enc_with in *. cbn [e_vars e_a2v] in *.
+    apply (conv_set_ign e s (e_a2s e) (e_assum e) H v id'). unfold enc_with. cbn [e_vars]. exact Hv. }
+  intros e1 H1. eapply okm_bind; [apply new_solver_var_spec'|]. intros [vars sv] Ha.
+  destruct (negb _); [apply okm_panic|].
+  match goal with |- okm (match ?x with _ => _ end) _ => destruct x end; [|apply okm_panic].
+  match goal with |- okm (match ?x with _ => _ end) _ => destruct x end; [|apply okm_panic].
+  apply okm_bind_any. intros _. apply okm_ret.
+  intros v id' Hv. unfold enc_with in *. cbn [e_vars e_a2v] in *.
+  destruct (allocated_entries _ _ _ _ _ Ha Hv) as [[_ Hold]|[Hi|[_ Ht]]]; try discriminate.
+  apply H1. exact Hold.
+Qed.
+
+Lemma fold_update_attacks_to_conv af ids : forall e, conv e -> okm (fold_m (update_attacks_to L af) ids e) conv.
+Proof. intros e He. apply okm_fold_m; [|exact He]. intros a x Ha. apply update_attacks_to_conv. exact Ha. Qed.
+
+Lemma alloc_arg_vars_entries sm vars id :
+  okm (alloc_arg_vars sm vars id)
+      (fun r => length vars <= snd r /\
+                forall i x, nth_error (fst r) i = Some x ->
+                  (i < length vars /\ nth_error vars i = Some x) \/ x = VIgnored \/
+                  (i = snd r /\ x = VArg id) \/ x = VDisj id).
+Proof.
+  unfold alloc_arg_vars. eapply okm_bind; [apply new_solver_var_spec'|]. intros r1 Ha1.
+  pose proof Ha1 as [(A1 & _ & _ & A4) _].
+  destruct sm.
+  2:{ apply okm_ret. split; [exact A1|]. intros i x Hx.
+      destruct (allocated_entries _ _ _ _ _ Ha1 Hx) as [Ho|[Hi|[-> ->]]]; auto. }
+  all: eapply okm_bind; [apply new_solver_var_spec'|]; intros r2 Ha2; apply okm_bind_any; intros _;
+    apply okm_ret; cbn [fst snd]; (split; [exact A1|]); intros i x Hx;
+    destruct (allocated_entries _ _ _ _ _ Ha2 Hx) as [[Hl Ho]|[Hi|[_ ->]]]; auto;
+    destruct (allocated_entries _ _ _ _ _ Ha1 Ho) as [Ho'|[Hi'|[-> ->]]]; auto.
+Qed.
+
+Lemma enc_new_argument_conv af e l :
+  tabs af e -> conv e -> okm (enc_new_argument L leqb af e l) (fun r => conv (snd r)).
+Proof.
+  intros [Hc Hl] H. unfold enc_new_argument. destruct (get_argument af l) eqn:Eg; [apply okm_ret; exact H|].
+  destruct (new_argument_fresh_slots af l Eg) as [Hsl Hmax]. rewrite Hmax.
+  destruct Hl as (L1 & _).
+  eapply okm_bind; [apply alloc_arg_vars_entries|]. intros r [Hge Hent].
+  eapply okm_bind; [apply update_attacks_to_conv|intros e4 H4; apply okm_ret; exact H4].
+  intros v id' Hv. unfold enc_with in *. cbn [e_vars e_a2v] in *.
+  destruct (Hent _ _ Hv) as [[Hlt Hold]|[Hi|[[-> Hx]|Hx]]]; try discriminate.
+  - pose proof (H _ _ Hold) as Ht. rewrite tbl_var_snoc_old; [exact Ht|]. eapply tbl_var_lt; eassumption.
+  - injection Hx as ->. rewrite <- L1. apply tbl_var_snoc_new.
+Qed.
+
+Lemma enc_remove_argument_conv af e l :
+  tabs af e -> conv e -> okm (enc_remove_argument L leqb af e l) (fun r => conv (snd (fst r))).
+Proof.
+  intros [Hc Hl] H. unfold enc_remove_argument. destruct (get_argument af l) as [arg_id|]; [|apply okm_ret; exact H].
+  destruct (Store.remove_argument L leqb af l) as [af' [| |]]; try (apply okm_ret; exact H).
+  destruct (tbl_var (e_a2v e) arg_id) as [v|] eqn:Ev; [|apply okm_panic].
+  pose proof (tbl_var_lt _ _ _ Ev) as Hid.
+  (* after the table entry is cleared and the selector retired: the only stale entry is (v, arg_id) *)
+  apply (okm_bind _ _ (fun e2 => e_a2v e2 = set_nth arg_id None (e_a2v e) /\
+            forall v' id', nth_error (e_vars e2) v' = Some (VArg id') -> tbl_var (e_a2v e) id' = Some v')).
+  { match goal with |- okm (match ?x with _ => _ end) _ => destruct x as [[s|]|] end; [| |apply okm_panic].
+    - eapply okm_bind; [apply remove_selector_spec|]. intros e' (p & _ & ->). apply okm_ret.
+      unfold enc_with. cbn [e_vars e_a2v]. split; [reflexivity|]. intros v' id' Hv.
+      destruct (Nat.eq_dec s v') as [->|Hne].
+      + pose proof (nth_error_lt _ _ _ Hv) as Hlt. rewrite length_set_nth in Hlt.
+        rewrite nth_error_set_nth_eq in Hv by assumption. discriminate.
+      + rewrite nth_error_set_nth_neq in Hv by assumption. apply H. exact Hv.
+    - apply okm_ret. unfold enc_with. cbn [e_vars e_a2v]. split; [reflexivity|]. intros v' id' Hv. apply H. exact Hv. }
+  intros e2 [Ha2v Hst]. destruct (Nat.ltb _ _); [|apply okm_panic]. apply okm_bind_any. intros _.
+  eapply okm_bind; [apply fold_update_attacks_to_conv|intros e4 H4; apply okm_ret; exact H4].
+  intros v' id' Hv. unfold enc_with in *. cbn [e_vars e_a2v] in *.
+  destruct (Nat.eq_dec v v') as [->|Hne].
+  - pose proof (nth_error_lt _ _ _ Hv) as Hlt. rewrite length_set_nth in Hlt.
+    rewrite nth_error_set_nth_eq in Hv by assumption. discriminate.
+  - rewrite nth_error_set_nth_neq in Hv by assumption. pose proof (Hst _ _ Hv) as Ht.
+    rewrite Ha2v. rewrite tbl_var_set_neq; [exact Ht|]. intros <-. congruence.
+Qed.
+
+Lemma enc_new_attack_conv af e a b : conv e -> okm (enc_new_attack L leqb af e a b) (fun r => conv (snd (fst r))).
+Proof.
+  intros H. unfold enc_new_attack. destruct (Store.new_attack L leqb af a b) as [af' [| |]].
+  - destruct (get_argument af' b); [|apply okm_panic].
+    eapply okm_bind; [apply update_attacks_to_conv; exact H|]. intros e' He'. apply okm_ret. exact He'.
+  - apply okm_ret. exact H.
+  - apply okm_panic.
+Qed.
+Lemma enc_remove_attack_conv af e a b : conv e -> okm (enc_remove_attack L leqb af e a b) (fun r => conv (snd (fst r))).
+Proof.
+  intros H. unfold enc_remove_attack. destruct (Store.remove_attack L leqb af a b) as [af' [| |]].
+  - destruct (get_argument af' b); [|apply okm_panic].
+    eapply okm_bind; [apply update_attacks_to_conv; exact H|]. intros e' He'. apply okm_ret. exact He'.
+  - apply okm_ret. exact H.
+  - apply okm_panic.
+Qed.
+
+Lemma fold_std_replay_conv evs : forall af e upd,
+  tabs af e -> conv e ->
+  okm (fold_m (std_replay L leqb) evs (af, e, upd)) (fun st => conv (snd (fst st))).
+Proof.
+  induction evs as [|ev r IH]; intros af e upd Ht H; cbn [fold_m]; [apply okm_ret; exact H|].
+  apply (okm_bind _ _ (fun st => tabs (fst (fst st)) (snd (fst st)) /\ conv (snd (fst st)))).
+  - intros ps st ps' E. split.
+    + exact (proj1 (std_replay_ok af e upd ev Ht _ _ _ E)).
+    + revert ps st ps' E. change (okm (std_replay L leqb (af, e, upd) ev) (fun st => conv (snd (fst st)))).
+      unfold std_replay. destruct ev as [l|l|a b|a b|x y z|x y z]; try (apply okm_ret; exact H).
+      * eapply okm_bind; [apply enc_new_argument_conv; assumption|]. intros r0 Hr.
+        apply okm_bind_any. intros id. apply okm_ret. exact Hr.
+      * apply okm_bind_any. intros arg_id.
+        eapply okm_bind; [apply enc_remove_argument_conv; assumption|]. intros r0 Hr.
+        apply okm_unwrap_ok'. intros p Hp. apply okm_ret. subst r0. exact Hr.
+      * eapply okm_bind; [apply enc_new_attack_conv; exact H|]. intros r0 Hr.
+        apply okm_unwrap_ok'. intros p Hp. apply okm_bind_any. intros id. apply okm_ret. subst r0. exact Hr.
+      * eapply okm_bind; [apply enc_remove_attack_conv; exact H|]. intros r0 Hr.
+        apply okm_unwrap_ok'. intros p Hp. apply okm_bind_any. intros id. apply okm_ret. subst r0. exact Hr.
+  - intros [[af1 e1] upd1] [Ht1 H1]. apply IH; assumption.
+Qed.
+
+Definition conv_buf (b : dbuf) : Prop := match b_enc L b with XStd e => conv e | XAtt _ => True end.
+
+Lemma conv_enable e b : conv (enc_enable e b) <-> conv e.
+Proof. unfold conv, enc_enable. cbn [e_vars e_a2v]. tauto. Qed.
+
+Lemma update_encoding_conv af b :
+  enc_inv af b -> conv_buf b -> okm (update_encoding L leqb af b) (fun r => conv_buf (snd r)).
+Proof.
+  unfold enc_inv, conv_buf, update_encoding. destruct (b_enc L b) as [e|e].
+  - intros [Ht _] H. apply tables_ok_split in Ht.
+    apply (okm_bind _ _ (fun st => conv (snd (fst st)))).
+    + apply fold_std_replay_conv; assumption.
+    + intros [[af' e'] upd] H1. cbn [fst snd] in H1.
+      eapply okm_bind; [apply fold_update_attacks_to_conv; apply conv_enable; exact H1|].
+      intros e'' H2. apply okm_ret. cbn [snd buf_with b_enc]. apply conv_enable. exact H2.
+  - intros _ _. apply okm_bind_any. intros st. apply okm_bind_any. intros e'. apply okm_ret.
+    cbn [snd buf_with b_enc]. exact I.
+Qed.
+
+Lemma conv_reach k s os : reach k s os -> not_dummy k -> conv_buf (s_buf L s).
+Proof.
+  induction 1 as [ps ps' s Hn|s os o Hr IH|s os oracle thr fuel q cert l ps ps' s' a Hr IH Hq]; intros Hnd.
+  - assert (H0 : forall sm, conv (enc_enable (enc_new sm) false)).
+    { intros sm v id Hv. unfold enc_enable, enc_new in Hv. cbn [e_vars] in Hv.
+      destruct v as [|[|v]]; cbn in Hv; discriminate. }
+    unfold dyn_new in Hn. destruct k.
+    1-3: apply bind_Done in Hn; destruct Hn as (u & ps1 & _ & Hn); apply Done_inj in Hn; destruct Hn as [<- _];
+         cbn [s_buf]; unfold conv_buf; cbn [b_enc]; apply H0.
+    1-2: apply bind_Done in Hn; destruct Hn as (u & ps1 & _ & Hn); apply Done_inj in Hn; destruct Hn as [<- _];
+         cbn [s_buf]; unfold conv_buf; cbn [b_enc]; exact I.
+    destruct Hnd.
+  - specialize (IH Hnd). pose proof (reach_frame_inv _ _ _ Hr) as [Hk _ _ _].
+    pose proof (buf_update_spec (s_buf L s) o) as Hb. cbv zeta in Hb. destruct Hb as (_ & _ & _ & Hen & _).
+    unfold dyn_update. rewrite Hk. unfold conv_buf in *.
+    destruct k; try contradiction;
+      destruct (buf_update L leqb (s_buf L s) o) as [b r]; cbn [fst snd s_buf] in *; rewrite Hen; exact IH.
+  - specialize (IH Hnd). pose proof (enc_inv_reach _ _ _ Hr Hnd) as Hinv.
+    pose proof (dyn_query_shape oracle thr fuel s q cert l _ (update_encoding_conv _ _ Hinv IH) _ _ _ Hq) as Hp.
+    unfold pushed in Hp. cbn [fst] in Hp.
+    destruct Hp as [->|(af & buf & ev & Hc & ->)]; [exact IH|].
+    cbn [s_buf snd] in *. unfold conv_buf, buf_push, buf_with in *. cbn [b_enc]. exact Hc.
+Qed.
+
+(* ---- assignment_to_extension of the dynamic encoder yields live arguments, each once *)
+Lemma NoDup_fst_filter_combine {A} (p : nat * A -> bool) : forall (l1 : list nat) (l2 : list A),
+  NoDup l1 -> NoDup (map fst (filter p (combine l1 l2))).
+Proof.
+  induction l1 as [|x r IH]; intros l2 Hnd; [constructor|]. destruct l2 as [|y t]; [constructor|].
+  inversion Hnd as [|? ? Hnotin Hr]; subst. cbn [combine filter].
+  destruct (p (x, y)); cbn [map fst]; [|apply IH; assumption].
+  constructor; [|apply IH; assumption].
+  intros Hin. apply in_map_iff in Hin. destruct Hin as ([a b] & Ha & Hin). cbn [fst] in Ha. subst a.
+  apply filter_In in Hin. destruct Hin as [Hin _]. apply in_combine_l in Hin. contradiction.
+Qed.
+
+Lemma filter_map_In {A B} (f : A -> option B) (l : list A) y :
+  In y (Encoders.filter_map f l) -> exists x, In x l /\ f x = Some y.
+Proof.
+  induction l as [|x r IH]; cbn [Encoders.filter_map]; [intros []|].
+  destruct (f x) as [z|] eqn:E.
+  - intros [<-|Hin]; [exists x; split; [left; reflexivity|assumption]|].
+    destruct (IH Hin) as (x' & H1 & H2). exists x'. split; [right; assumption|assumption].
+  - intros Hin. destruct (IH Hin) as (x' & H1 & H2). exists x'. split; [right; assumption|assumption].
+Qed.
+
+Lemma filter_map_NoDup {A B} (f : A -> option B) (l : list A) :
+  NoDup l -> (forall a b y, In a l -> In b l -> f a = Some y -> f b = Some y -> a = b) ->
+  NoDup (Encoders.filter_map f l).
+Proof.
+  induction l as [|x r IH]; intros Hnd Hinj; cbn [Encoders.filter_map]; [constructor|].
+  inversion Hnd as [|? ? Hnotin Hr]; subst.
+  assert (IH' : NoDup (Encoders.filter_map f r)).
+  { apply IH; [assumption|]. intros a b y Ha Hb. apply Hinj; right; assumption. }
+  destruct (f x) as [z|] eqn:E; [|exact IH'].
+  constructor; [|exact IH']. intros Hin. destruct (filter_map_In _ _ _ Hin) as (x' & H1 & H2).
+  assert (x = x') by (eapply Hinj; [left; reflexivity|right; exact H1|exact E|exact H2]). subst x'. contradiction.
+Qed.
+
+Theorem dyn_a2e_wf (af : fw) e m :
+  tables_ok L af e -> conv e ->
+  NoDup (dyn_a2e (e_vars e) m) /\
+  forall id, In id (dyn_a2e (e_vars e) m) -> has_argument_with_id L af id = true.
+Proof.
+  intros Ht Hc. unfold dyn_a2e, vars_where. split.
+  - apply filter_map_NoDup; [apply NoDup_fst_filter_combine, seq_NoDup|].
+    intros a b y _ _ Ha Hb. unfold var_to_arg in Ha, Hb.
+    destruct (nth_error (e_vars e) a) as [[ia| | | |]|] eqn:Ea; try discriminate. injection Ha as ->.
+    destruct (nth_error (e_vars e) b) as [[ib| | | |]|] eqn:Eb; try discriminate. injection Hb as ->.
+    pose proof (Hc _ _ Ea). pose proof (Hc _ _ Eb). congruence.
+  - intros id Hin. destruct (filter_map_In _ _ _ Hin) as (v & _ & Hv). unfold var_to_arg in Hv.
+    destruct (nth_error (e_vars e) v) as [[iv| | | |]|] eqn:Ev; try discriminate. injection Hv as ->.
+    apply (t_live L af e Ht). rewrite (Hc _ _ Ev). discriminate.
+Qed.
+
+(* ---- certificates computed by a SAT call of the complete / stable solvers *)
+Definition fresh_cert (P : fw * dbuf -> Prop) (s : dsolver) (r : dsolver * answer_t) : Prop :=
+  fst r = s \/ exists af buf ev, P (af, buf) /\
+    fst r = {| s_kind := s_kind L s; s_af := af; s_buf := buf_push L buf ev |} /\
+    forall ext, snd (snd r) = Some ext -> exists m, ext = dyn_a2e (x_vars (b_enc L buf)) m.
+
+Lemma dc_query_cert oracle s l P :
+  okm (update_encoding L leqb (s_af L s) (s_buf L s)) P -> okm (dc_query oracle L leqb s l) (fresh_cert P s).
+Proof.
+  intros HP. unfold dc_query.
+  destruct (is_cred L leqb (s_buf L s) l) as [[b|] [e|]];
+    try (apply okm_ret; left; reflexivity).
+  all: eapply okm_bind; [exact HP|]; intros [af buf] Henc;
+    apply okm_bind_any; intros asm; apply okm_bind_any; intros v; apply okm_bind_any; intros [m|];
+    [apply okm_bind_any; intros acc|]; apply okm_ret; right; exists af, buf; eexists;
+    (split; [exact Henc|]); (split; [reflexivity|]); cbn [snd]; intros ext Hext;
+    [injection Hext as <-; eexists; reflexivity|discriminate].
+Qed.
+Lemma st_ds_query_cert oracle s l P :
+  okm (update_encoding L leqb (s_af L s) (s_buf L s)) P -> okm (st_ds_query oracle L leqb s l) (fresh_cert P s).
+Proof.
+  intros HP. unfold st_ds_query.
+  destruct (is_skep L leqb (s_buf L s) l) as [[b|] [e|]];
+    try (apply okm_ret; left; reflexivity).
+  all: eapply okm_bind; [exact HP|]; intros [af buf] Henc;
+    apply okm_bind_any; intros asm; apply okm_bind_any; intros v; apply okm_bind_any; intros [m|];
+    [apply okm_bind_any; intros acc|apply okm_bind_any; intros id; apply okm_bind_any; intros refused];
+    apply okm_ret; right; exists af, buf; eexists;
+    (split; [exact Henc|]); (split; [reflexivity|]); cbn [snd]; intros ext Hext;
+    [injection Hext as <-; eexists; reflexivity|discriminate].
+Qed.
+
+Definition std_kind (k : dkind) : Prop := k = KCo \/ k = KSt \/ k = KPr.
+
+Lemma update_encoding_std af b :
+  is_std (b_enc L b) -> okm (update_encoding L leqb af b) (fun r => is_std (b_enc L (snd r))).
+Proof.
+  intros H. eapply okm_weaken; [apply update_encoding_spec|]. intros r (_ & _ & _ & _ & H5). auto.
+Qed.
+
+Lemma std_kind_reach k s os : reach k s os -> std_kind k -> is_std (b_enc L (s_buf L s)).
+Proof.
+  induction 1 as [ps ps' s Hn|s os o Hr IH|s os oracle thr fuel q cert l ps ps' s' a Hr IH Hq]; intros Hk.
+  - unfold dyn_new in Hn. destruct Hk as [-> |[-> | ->]];
+      apply bind_Done in Hn; destruct Hn as (u & ps1 & _ & Hn); apply Done_inj in Hn; destruct Hn as [<- _];
+      cbn [s_buf b_enc is_std]; exact I.
+  - specialize (IH Hk). pose proof (reach_frame_inv _ _ _ Hr) as [Hkind _ _ _].
+    pose proof (buf_update_spec (s_buf L s) o) as Hb. cbv zeta in Hb. destruct Hb as (_ & _ & _ & Hen & _).
+    unfold dyn_update. rewrite Hkind.
+    destruct Hk as [-> |[-> | ->]];
+      destruct (buf_update L leqb (s_buf L s) o) as [b r]; cbn [fst snd s_buf] in *; rewrite Hen; exact IH.
+  - specialize (IH Hk).
+    pose proof (dyn_query_shape oracle thr fuel s q cert l _ (update_encoding_std _ _ IH) _ _ _ Hq) as Hp.
+    unfold pushed in Hp. cbn [fst] in Hp.
+    destruct Hp as [->|(af & buf & ev & Hc & ->)]; [exact IH|].
+    cbn [s_buf snd] in *. unfold buf_push, buf_with. cbn [b_enc]. exact Hc.
+Qed.
+
+(* every certificate that the dynamic complete / stable solver computes by a SAT call (i.e. whenever
+   the state changed: not a cache hit) is a duplicate-free list of ids of LIVE arguments of the
+   solver's framework - for any answer of the SAT solver, valid or not *)
+Theorem std_fresh_certificate_wf k s os oracle thr fuel q cert l ps ps' s' b ext :
+  reach k s os -> (k = KCo \/ k = KSt) ->
+  dyn_query oracle L leqb thr fuel s q cert l ps = Done (s', (b, Some ext)) ps' ->
+  s' = s \/ (NoDup ext /\ forall id, In id ext -> has_argument_with_id L (s_af L s') id = true).
+Proof.
+  intros Hr Hk Hq.
+  assert (Hnd : not_dummy k) by (destruct Hk as [-> | ->]; exact I).
+  pose proof (reach_frame_inv _ _ _ Hr) as [Hkind _ _ _].
+  pose proof (enc_inv_reach _ _ _ Hr Hnd) as Hinv. pose proof (conv_reach _ _ _ Hr Hnd) as Hcv.
+  assert (Hstd : is_std (b_enc L (s_buf L s))).
+  { apply (std_kind_reach _ _ _ Hr). unfold std_kind. tauto. }
+  set (P := fun r : fw * dbuf => (enc_inv (fst r) (snd r) /\ conv_buf (snd r)) /\ is_std (b_enc L (snd r))).
+  assert (HP : okm (update_encoding L leqb (s_af L s) (s_buf L s)) P).
+  { intros p0 r p1 E. split; [split|].
+    - exact (update_encoding_tables _ _ Hinv _ _ _ E).
+    - exact (update_encoding_conv _ _ Hinv Hcv _ _ _ E).
+    - exact (update_encoding_std _ _ Hstd _ _ _ E). }
+  assert (Hin : exists r1, fresh_cert P s r1 /\ fst r1 = s' /\ snd r1 = (b, Some ext)).
+  { unfold dyn_query in Hq. rewrite Hkind in Hq.
+    destruct Hk as [-> | ->]; destruct q; try discriminate Hq;
+      apply bind_Done in Hq; destruct Hq as (r1 & ps1 & Hq1 & Hq2);
+      apply Done_inj in Hq2; destruct Hq2 as [Hq2 _]; apply pair_equal_spec in Hq2; destruct Hq2 as [Hs' Ha];
+      (destruct cert; [|apply pair_equal_spec in Ha; destruct Ha as [_ Ha]; discriminate Ha]);
+      exists r1;
+      (split; [first [exact (dc_query_cert _ _ _ _ HP _ _ _ Hq1) | exact (st_ds_query_cert _ _ _ _ HP _ _ _ Hq1)]|]);
+      split; assumption. }
+  destruct Hin as (r1 & Hfc & Hs1 & Ha1).
+  destruct Hfc as [Hs|(af & buf & ev & [[Hi Hc] Hstd'] & Hs & Hext)]; [left; congruence|right].
+  rewrite Ha1 in Hext. cbn [snd] in Hext. destruct (Hext ext eq_refl) as (m & ->).
+  rewrite <- Hs1, Hs. cbn [s_af].
+  (* the encoder after update_encoding is the standard one for these kinds *)
+  cbn [fst snd] in Hi, Hc, Hstd'. unfold enc_inv in Hi. unfold conv_buf in Hc.
+  destruct (b_enc L buf) as [e|e] eqn:Ee.
+  - cbn [x_vars]. destruct Hi as [Ht _]. exact (dyn_a2e_wf af e m Ht Hc).
+  - destruct Hstd'.
+Qed.
 End DynProofs.
